@@ -360,6 +360,24 @@ func (p *Program) modSetOf(fn *ssa.Function, ignoreOwn bool) *ModSet {
 							p.noteAll(f, "clear builtin")
 						}
 					case *ssa.Function:
+						if cv.Pkg != nil && cv.Pkg.Pkg.Path() == "sort" && (cv.Name() == "Sort" || cv.Name() == "Stable") && len(c.Args) == 1 {
+							// sort.Sort(x): only x's own Len/Less/Swap are called back
+							if mi, ok := c.Args[0].(*ssa.MakeInterface); ok {
+								mset := p.Prog.MethodSets.MethodSet(mi.X.Type())
+								for _, mn := range []string{"Len", "Less", "Swap"} {
+									if sel := mset.Lookup(nil, mn); sel != nil {
+										if mf := p.Prog.MethodValue(sel); mf != nil {
+											if !seen[mf] {
+												seen[mf] = true
+												work = append(work, mf)
+											}
+											callees[f] = append(callees[f], mf)
+										}
+									}
+								}
+								continue
+							}
+						}
 						if !seen[cv] {
 							seen[cv] = true
 							work = append(work, cv)
